@@ -7,11 +7,13 @@ import (
 	"encoding/binary"
 	"fmt"
 	"math/rand"
+	"reflect"
 	"runtime"
 	"sync"
 	"sync/atomic"
 	"testing"
 	"time"
+	"unsafe"
 
 	pubsub "github.com/libp2p/go-libp2p-pubsub"
 	"github.com/libp2p/go-libp2p/core/peer"
@@ -265,9 +267,26 @@ func c16NewWorld(n int, idents []*identity) *c16World {
 	return w
 }
 
-func (w *c16World) close() {
-	for _, t := range w.ticks {
-		close(t)
+// close stops the tickers. sends[i] is the number of Send calls made on
+// channel i: each one registers with the ticker from its own goroutine, and
+// the ticker clears its handler map without its mutex once the tick channel
+// is closed, so the channel is closed only after every registration is in
+// (otherwise left open: one parked goroutine).
+func (w *c16World) close(sends []int) {
+	for i, t := range w.ticks {
+		tk := w.channels[i].retransmissionTicker
+		deadline := time.Now().Add(5 * time.Second)
+		for {
+			n := c16TickerRegistrations(tk)
+			if n >= uint64(sends[i]) {
+				close(t)
+				break
+			}
+			if time.Now().After(deadline) {
+				break
+			}
+			time.Sleep(50 * time.Microsecond)
+		}
 	}
 }
 
@@ -303,6 +322,16 @@ func (w *c16World) published() int {
 	return n
 }
 
+// c16TickerRegistrations reads the Ticker's registration counter under the
+// Ticker's own mutex (the fields are unexported in package retransmission).
+func c16TickerRegistrations(tk *retransmission.Ticker) uint64 {
+	v := reflect.ValueOf(tk).Elem()
+	mu := (*sync.Mutex)(unsafe.Pointer(v.FieldByName("handlersMutex").UnsafeAddr()))
+	mu.Lock()
+	defer mu.Unlock()
+	return v.FieldByName("nextHandlerId").Uint()
+}
+
 type c16Outcome struct {
 	retransOfDelivered int
 	postCancelSends    int
@@ -322,7 +351,11 @@ func c16Strategy(s string) net.RetransmissionStrategy {
 // calls and cancel returns (oracle pass only; never under -race).
 func c16RunScript(r *verifkit.Run, sc c16Script, desc string, idents []*identity, stamps bool) (out c16Outcome) {
 	w := c16NewWorld(sc.Channels, idents)
-	defer w.close()
+	sends := make([]int, sc.Channels)
+	for _, m := range sc.Msgs {
+		sends[sc.SenderCh[m.Sender]]++
+	}
+	defer w.close(sends)
 	const watchdog = 30 * time.Second
 
 	handlers := make([]*c16Handler, len(sc.Handlers))
@@ -442,7 +475,7 @@ func c16RunScript(r *verifkit.Run, sc c16Script, desc string, idents []*identity
 		last, lastTap := -1, -1
 		stable := 0
 		deadline := time.Now().Add(500 * time.Millisecond)
-		for stable < 20 && time.Now().Before(deadline) {
+		for stable < 10 && time.Now().Before(deadline) {
 			q, tp := w.queued(), w.published()
 			if q == 0 && q == last && tp == lastTap {
 				stable++
@@ -542,6 +575,11 @@ func c16RunScript(r *verifkit.Run, sc c16Script, desc string, idents []*identity
 		recs := append([]c16Rec(nil), hd.recs...)
 		hd.mu.Unlock()
 		out.deliveries += len(recs)
+		if sc.Handlers[h].Pre && sc.Handlers[h].PreCancelled && len(recs) > 0 {
+			// cancelled before any sender goroutine existed: every Send began after the cancellation
+			r.Violation("libp2p:delivered-after-cancel", "a handler registered with a context cancelled before the traffic started received a message", desc,
+				map[string]interface{}{"handler": h, "deliveries": len(recs)})
+		}
 		seenPair := map[pair]bool{}
 		seenID := map[uint64]bool{}
 		for _, rc := range recs {
@@ -580,7 +618,12 @@ func c16RunScript(r *verifkit.Run, sc c16Script, desc string, idents []*identity
 
 func c16ChannelWorkload(r *verifkit.Run, repeats int, stamps bool) {
 	r.SetRule("scenario = 1-3 libp2p channel structs joined by a fake topic (records each published protobuf, delivers it 1-3 times, partly from fresh goroutines, to every channel's processContainerMessage) with hand-fed retransmission tickers, 2-6 sender goroutines (2-6 Sends each, standard or backoff strategy, some send contexts cancelled early), 1-5 handlers registered before or during the traffic (some with an already cancelled context), cancelled by a sender goroutine at a PRNG position which then immediately sends 1-3 more messages, ticks injected by the senders and after the traffic; oracle: per handler each (sender, seqno) and each Send at most once, one seqno per Send and per-channel seqnos distinct (fake publisher), nothing sent after cancel() returned reaches that handler. non-trivial = a retransmission of an already delivered message was observed, or a handler was cancelled while traffic continued")
-	n := r.N(200, 10000)
+	n := r.N(150, 6000)
+	if !stamps {
+		// the race build spends most of its time in secp256k1 arithmetic
+		// (identity decoding on every delivery): fewer scenarios
+		n = r.N(60, 600)
+	}
 	var keys []*identity
 	for i := 0; i < 3; i++ {
 		opk, _, err := operator.GenerateKeyPair(DefaultCurve)
@@ -601,7 +644,7 @@ func c16ChannelWorkload(r *verifkit.Run, repeats int, stamps bool) {
 		keys = append(keys, ident)
 	}
 	var retrans, post, deliveries, broadcasts int64
-	verifkit.Parallel(n, 4, func(i int) {
+	verifkit.Parallel(n, 8, func(i int) {
 		sc := c16GenScript(r.SubRand("channel", i))
 		desc := verifkit.JSON(sc)
 		for rep := 0; rep < repeats; rep++ {
@@ -636,5 +679,5 @@ func TestVerif_C16_ChannelRace(t *testing.T) {
 	r := verifkit.Start(t, "C16", "libp2p-channel-race")
 	defer r.Finish()
 	r.Assume("race pass: no stamps; handler callbacks append to their own slice under their own mutex (receive goroutine and final reader only); Send calls and cancel results go to per-message / per-handler slots read after the goroutines ended")
-	c16ChannelWorkload(r, r.N(2, 10), false)
+	c16ChannelWorkload(r, r.N(1, 2), false)
 }
